@@ -35,8 +35,10 @@ const B_Z2: usize = 10;
 const B_HASH0: usize = 11;
 const B_NOFCS: usize = 13;
 const B_BIGFILE: usize = 14;
+const B_ZEROS: usize = 15;
+const B_RUNS: usize = 16;
 
-pub const NCALLS: usize = 21;
+pub const NCALLS: usize = 23;
 /// call that processes a 20 MiB input: only used as the first element of two-call histories
 pub const BIG_CALL: usize = 20;
 
@@ -77,6 +79,11 @@ impl Inputs {
         let unit = text_family(6, 1 << 16);
         let big: Vec<u8> = unit.iter().cycle().take(20 << 20).cloned().collect();
         blobs.push(big);
+        // low-entropy streams of more than 64 KiB of plaintext: every hash candidate of the estimator ties on them
+        let zeros = vec![0u8; 128 << 10];
+        blobs.push(crate::comp::zlib_deflate_raw(&zeros, 6, 0, 15, 8).unwrap());
+        let runs = text_family(3, 100_000);
+        blobs.push(crate::comp::zlib_deflate_raw(&runs, 1, 0, 15, 8).unwrap());
         Inputs { blobs }
     }
     pub fn save(&self, path: &str) {
@@ -134,6 +141,7 @@ pub const CALL_NAMES: [&str; NCALLS] = [
     "corrections(stream, hash=MiniZFast)", "corrections(stream, hash=Libdeflate4)", "corrections(stream, hash=Libdeflate4Fast)",
     "corrections(stream, hash=ZlibNG)", "corrections(stream, hash=RandomVector)", "corrections(stream, hash=Crc32c)",
     "decompress_zstd(frame without content size)", "compress_zstd(20 MiB file)",
+    "decompress(stream of 128 KiB zeros, verify=true)", "decompress(zlib-1 stream of 100 KB of runs, verify=true)",
 ];
 
 fn dres<T: AsRef<[u8]>>(r: Result<R<T>, PanicInfo>) -> u64 {
@@ -171,6 +179,8 @@ pub fn call(s: &dyn Subject, id: usize, inp: &Inputs) -> u64 {
         12 => dres(caught(|| c_decompress(s, &b[B_Z], b[B_FSMALL].len() + 64))),
         19 => dres(caught(|| s.decompress_zstd(&b[B_NOFCS], 1 << 20))),
         20 => dres(caught(|| s.compress_zstd(&b[B_BIGFILE]))),
+        21 => dsplit(caught(|| s.decompress(&b[B_ZEROS], true))),
+        22 => dsplit(caught(|| s.decompress(&b[B_RUNS], true))),
         13..=18 => {
             let mut v: Vec<u32> = b[B_HASH0 + 1].chunks(4).map(|c| u32::from_le_bytes(c.try_into().unwrap())).collect();
             v[4] = (id - 13 + 2) as u32;
@@ -321,6 +331,23 @@ fn child_digests(inputs_path: &str, which: &str, envs: &[(&str, &str)], no_aslr:
     };
     cmd.arg("digest").arg(inputs_path).arg(which);
     for (k, v) in envs {
+        if *k == "__one_cpu" {
+            // the child may run on one CPU only (std::thread::available_parallelism() == 1 there)
+            use std::os::unix::process::CommandExt;
+            unsafe {
+                cmd.pre_exec(|| {
+                    let mut cur: libc::cpu_set_t = std::mem::zeroed();
+                    if libc::sched_getaffinity(0, std::mem::size_of::<libc::cpu_set_t>(), &mut cur) == 0 {
+                        let first = (0..libc::CPU_SETSIZE as usize).find(|&c| libc::CPU_ISSET(c, &cur)).unwrap_or(0);
+                        let mut one: libc::cpu_set_t = std::mem::zeroed();
+                        libc::CPU_SET(first, &mut one);
+                        libc::sched_setaffinity(0, std::mem::size_of::<libc::cpu_set_t>(), &one);
+                    }
+                    Ok(())
+                });
+            }
+            continue;
+        }
         cmd.env(k, v);
     }
     let out = cmd.output().map_err(|e| format!("spawn: {}", e))?;
@@ -434,7 +461,54 @@ fn hook(site: u32) {
             std::thread::sleep(std::time::Duration::from_millis(ms));
         }
     }
+    // rendezvous: the first time a member of a group reaches its site it waits for all the others (or 3 s)
+    let rv = RV.with(|r| {
+        let mut r = r.borrow_mut();
+        if r.as_ref().map_or(false, |(s, _)| *s == site) {
+            r.take()
+        } else {
+            None
+        }
+    });
+    if let Some((_, group)) = rv {
+        group.arrive();
+    }
     sched_yield(site);
+}
+
+pub struct Rendezvous {
+    n: usize,
+    count: std::sync::Mutex<usize>,
+    cv: std::sync::Condvar,
+    pub complete: std::sync::atomic::AtomicBool,
+}
+
+impl Rendezvous {
+    fn new(n: usize) -> Rendezvous {
+        Rendezvous { n, count: std::sync::Mutex::new(0), cv: std::sync::Condvar::new(), complete: std::sync::atomic::AtomicBool::new(false) }
+    }
+    fn arrive(&self) {
+        let mut c = self.count.lock().unwrap_or_else(|e| e.into_inner());
+        *c += 1;
+        if *c >= self.n {
+            self.complete.store(true, std::sync::atomic::Ordering::SeqCst);
+            self.cv.notify_all();
+            return;
+        }
+        let deadline = std::time::Instant::now() + std::time::Duration::from_secs(3);
+        while *c < self.n {
+            let now = std::time::Instant::now();
+            if now >= deadline {
+                break;
+            }
+            let (g, _) = self.cv.wait_timeout(c, deadline - now).unwrap_or_else(|e| e.into_inner());
+            c = g;
+        }
+    }
+}
+
+thread_local! {
+    static RV: std::cell::RefCell<Option<(u32, std::sync::Arc<Rendezvous>)>> = const { std::cell::RefCell::new(None) };
 }
 
 pub struct Execution {
@@ -667,7 +741,7 @@ pub fn run_c14(ctx: &Ctx, st: &mut Local) {
         rec(ctx, st, s, &inp, &fresh, &mut hist, maxlen, &mut idx);
         let _ = std::fs::remove_file(&path);
         let e = st.eng(name);
-        e.bound = "21 (function, input) calls incl. the C wrappers, the corrections of one stream coded under each hash algorithm, a zstd frame without content size and a 20 MiB file; each as the first call of a fresh process; all call sequences of length <= 3 in one process, every result compared with the fresh-process result".into();
+        e.bound = "23 (function, input) calls incl. the C wrappers, the corrections of one stream coded under each hash algorithm, a zstd frame without content size, two low-entropy streams of > 64 KiB of plaintext and a 20 MiB file; each as the first call of a fresh process; all call sequences of length <= 3 in one process, every result compared with the fresh-process result".into();
         e.exhaustive = true;
     }
 
@@ -680,7 +754,7 @@ pub fn run_c14(ctx: &Ctx, st: &mut Local) {
         let mut idx = 0u64;
         for perturb in ["0", "85", "170"] {
             for mmap in ["", "1073741824"] {
-                for no_aslr in [false, true] {
+                for (no_aslr, one_cpu) in [(false, false), (true, false), (false, true)] {
                     let i = idx;
                     idx += 1;
                     if ctx.sel.mine(i) {
@@ -694,6 +768,9 @@ pub fn run_c14(ctx: &Ctx, st: &mut Local) {
                         continue;
                     }
                     let mut envs: Vec<(&str, &str)> = vec![("MALLOC_PERTURB_", perturb)];
+                    if one_cpu {
+                        envs.push(("__one_cpu", "1"));
+                    }
                     if !mmap.is_empty() {
                         envs.push(("MALLOC_MMAP_THRESHOLD_", mmap));
                         envs.push(("MALLOC_TRIM_THRESHOLD_", mmap));
@@ -727,7 +804,7 @@ pub fn run_c14(ctx: &Ctx, st: &mut Local) {
         }
         let _ = std::fs::remove_file(&path);
         let e = st.eng(name);
-        e.bound = "all 19 calls in fresh processes under MALLOC_PERTURB_ {0,0x55,0xAA} x mmap/trim threshold {default, 1 GiB} x ASLR {on, off}".into();
+        e.bound = "all 22 calls (every call but the 20 MiB one) in fresh processes under MALLOC_PERTURB_ {0,0x55,0xAA} x mmap/trim threshold {default, 1 GiB} x {default, ASLR off, pinned to one CPU}".into();
         e.exhaustive = true;
     }
 
@@ -775,7 +852,7 @@ pub fn run_c14(ctx: &Ctx, st: &mut Local) {
         }
         let _ = std::fs::remove_file(&path);
         let e = st.eng(name);
-        e.bound = format!("17 calls x {} fresh processes each (x5 for the six calls that differ only in the hash algorithm), 8-16 threads that warm up with sibling calls, start the call at a spinning barrier and meet again at the hook point before hashing starts (free-running: a sample of interleavings, labelled as such)", reps);
+        e.bound = format!("20 calls x {} fresh processes each (x5 for the six calls that differ only in the hash algorithm), 8-16 threads that warm up with sibling calls, start the call at a spinning barrier and meet again at the hook point before hashing starts (free-running: a sample of interleavings, labelled as such)", reps);
         e.exhaustive = true;
     }
 
@@ -821,7 +898,7 @@ pub fn run_c14(ctx: &Ctx, st: &mut Local) {
             }
         }
         let e = st.eng(name);
-        e.bound = format!("17 calls x every hook site the call reaches: the calling thread sleeps {} ms at the first visit of the site", ms);
+        e.bound = format!("20 calls x every hook site the call reaches: the calling thread sleeps {} ms at the first visit of the site", ms);
         e.exhaustive = true;
     }
 
@@ -890,6 +967,66 @@ pub fn run_c14(ctx: &Ctx, st: &mut Local) {
         let capped = e.notes.iter().any(|n| n == "cap hit");
         e.bound = format!("8 thread configurations (2 threads x 2 calls, 3 threads x 1 call; shared and private input buffers) x every schedule with at most {} preemptions at the library's hook points and at every call into the harness Read/Write objects", bound);
         e.exhaustive = !capped;
+    }
+
+    // (3a) rendezvous: N threads run the same call and meet at one hook site inside it, so that all N are inside the same
+    // region of the library at the same moment (admission limits, pools, per-call slots: N = 16, 17, 33, ...)
+    let name = "rendezvous";
+    if ctx.engine_on(name) {
+        s.set_sched_hook(Some(hook));
+        let ns: &[usize] = if ctx.quick() { &[16, 17] } else { &[2, 3, 8, 16, 17, 32, 33, 64] };
+        let mut idx = 0u64;
+        for id in [0usize, 1, 2, 3, 5, 6, 7, 11] {
+            TW_SEEN.with(|v| *v.borrow_mut() = Some(Vec::new()));
+            let _ = call(s, id, &inp);
+            let sites: Vec<u32> = TW_SEEN.with(|v| v.borrow_mut().take().unwrap_or_default());
+            for site in sites {
+                if site >= 100 {
+                    continue;
+                }
+                for &n in ns {
+                    let i = idx;
+                    idx += 1;
+                    if ctx.sel.mine(i) {
+                        count(ctx, name, st, i);
+                    }
+                    if !ctx.take(name, i) {
+                        continue;
+                    }
+                    st.sample(name, || format!("#{} {} threads in {} meet at hook site {}", i, n, CALL_NAMES[id], site));
+                    ctx.begin(name, i, 60_000);
+                    let group = std::sync::Arc::new(Rendezvous::new(n));
+                    let inp_ref = &inp;
+                    let res: Vec<u64> = std::thread::scope(|sc| {
+                        let hs: Vec<_> = (0..n)
+                            .map(|_| {
+                                let g = group.clone();
+                                sc.spawn(move || {
+                                    RV.with(|r| *r.borrow_mut() = Some((site, g)));
+                                    let d = call(s, id, inp_ref);
+                                    RV.with(|r| *r.borrow_mut() = None);
+                                    d
+                                })
+                            })
+                            .collect();
+                        hs.into_iter().map(|h| h.join().unwrap_or(0)).collect()
+                    });
+                    ctx.end();
+                    let bad = res.iter().filter(|d| **d != seq[id]).count();
+                    if bad > 0 {
+                        st.violation(ctx.viol(name, i, "concurrent-result-differs", None,
+                            format!("{} of {} threads that ran {} and met at hook site {} returned a result different from the sequential one", bad, n, CALL_NAMES[id], site), &[]));
+                    } else if group.complete.load(std::sync::atomic::Ordering::SeqCst) {
+                        st.outcome(name, "all-met-and-agree");
+                    } else {
+                        st.outcome(name, "agree(rendezvous-incomplete-after-3s)");
+                    }
+                }
+            }
+        }
+        let e = st.eng(name);
+        e.bound = format!("8 calls x every hook site the call reaches x N in {:?} threads that all wait for each other at that site (3 s cap), then run on freely; results compared with the sequential digest; a deadlock is a hang", ns);
+        e.exhaustive = true;
     }
 
     // (3b) argspace: the same argument bytes at every address alignment (a result may depend on the bytes of an
@@ -967,7 +1104,7 @@ pub fn run_c14(ctx: &Ctx, st: &mut Local) {
         e.states += 1;
         e.transitions += 1;
         e.nontrivial += 1;
-        e.bound = format!("all {} worker threads start each of the 19 calls simultaneously (barrier), {} rounds, alternating private and identical inputs, compared with the sequential digests (free-running: a sample of interleavings, labelled as such)", ctx.nthreads, rounds);
+        e.bound = format!("all {} worker threads start each of the 22 calls simultaneously (barrier), {} rounds, alternating private and identical inputs, compared with the sequential digests (free-running: a sample of interleavings, labelled as such)", ctx.nthreads, rounds);
         e.exhaustive = true;
         if bad > 0 {
             st.violation(ctx.viol(name, ctx.thread as u64, "concurrent-result-differs", None, format!("{} concurrent calls returned a result different from the sequential one", bad), &[]));
